@@ -97,23 +97,15 @@ Proof.
 Qed.
 
 (** ** connect *)
-Lemma no_eintr_fail : forall x e, no_eintr x = true -> fail_errno (snd x) = Some e -> (e =? EINTR) = false.
-Proof.
-  intros [dt rsp] e N H. unfold no_eintr in N. cbn in *. destruct rsp; inversion H; subst; try discriminate.
-  - reflexivity.
-  - destruct (e =? EINTR); [discriminate | reflexivity].
-Qed.
-
-Lemma run_connect_ok : forall c, 1 <= c_limit c -> forallb no_eintr (firstn 1 (c_script c)) = true ->
+Lemma run_connect_ok : forall c, 1 <= c_limit c ->
   match run_connect (c_limit c) (c_script c) (init_st c) with
   | (ORet r, s) => Final18 SConnect (c_nb c) s
   | _ => False
   end.
 Proof.
-  intros c LIM NE. unfold run_connect, enter. change (negb (s_nb (init_st c))) with (negb (c_nb c)).
+  intros c LIM. unfold run_connect, run_connect_gen, enter.
+  change (negb (s_nb (init_st c))) with (negb (c_nb c)).
   set (x := match c_script c with [] => exhausted | x :: _ => x end).
-  assert (NEx : no_eintr x = true).
-  { unfold x. destruct (c_script c) as [|y t]; [reflexivity|]. cbn in NE. now rewrite andb_true_r in NE. }
   assert (L0 : (0 <? c_limit c) = true) by lia. rewrite L0.
   set (s1 := if negb (c_nb c) then set_nb (init_st c) true else init_st c).
   assert (NB1 : s_nb s1 = true) by (unfold s1, init_st; destruct (c_nb c); reflexivity).
@@ -128,34 +120,63 @@ Proof.
     by (intros s; unfold restore; destruct (negb (c_nb c)); reflexivity).
   destruct (fail_errno (snd x)) as [e|] eqn:FE.
   - rewrite (kcall_fail _ _ _ _ _ _ FE). change (-1 =? 0) with false. cbv beta iota. cbn [s_errno].
-    destruct (in_progress e) eqn:IP.
-    + (* in progress: waits *)
+    destruct (in_progress_gen true e) eqn:IP.
+    + (* in progress or interrupted: waits *)
       unfold do_wait. cbn [s_wfail s_clock s_errno s_nb s_reqs s_moved s_waits].
       destruct (s_wfail s1) as [|b t]; [|destruct b]; cbn [negb];
         repeat match goal with |- context [if ?b then _ else _] => destruct b end;
         (split; [rewrite RST; [reflexivity | exact NB1] |]);
         intros _ W0; rewrite RSW in W0; cbn [set_errno s_waits] in W0; destruct (s_waits s1); discriminate.
-    + rewrite (no_eintr_fail x e NEx FE). cbn [s_errno]. change (-1 =? -1) with true. cbn [andb].
+    + (* any other errno: break *)
+      assert (WB : connect_would_block e = false).
+      { unfold in_progress_gen in IP. apply orb_false_iff in IP as [IP _]. exact IP. }
+      change (negb true) with false. cbn [andb s_errno]. change (-1 =? -1) with true. cbn [andb].
       destruct (e =? ETIMEDOUT);
         (split; [rewrite RST; [reflexivity | exact NB1] |]);
         intros _ _; rewrite RSQ; cbn [set_errno s_reqs]; rewrite Q1;
-        cbv [fold_left app c18_step fst snd q_err would_block negb andb orb]; rewrite IP; reflexivity.
+        cbv [fold_left app c18_step fst snd q_err would_block negb andb orb]; rewrite WB; reflexivity.
   - rewrite (kcall_succ _ _ _ _ _ FE). cbn [positions flat_map firstn]. rewrite firstn_nil. cbn [List.length].
     change (Z.of_nat 0 =? 0) with true. cbv beta iota. change (0 =? -1) with false. cbn [andb].
     split; [rewrite RST; [reflexivity | exact NB1] |].
     intros _ _. rewrite RSQ. cbn [set_errno s_reqs]. rewrite Q1. reflexivity.
 Qed.
 
-(** an interrupted connect never returns in the model either *)
-Lemma run_connect_eintr_stuck : forall c, 1 <= c_limit c ->
-  forallb no_eintr (firstn 1 (c_script c)) = false ->
-  fst (run_connect (c_limit c) (c_script c) (init_st c)) = OStuck.
+(** before the repair of [connect_eintr_spins]: an interrupted connect never returned *)
+Definition connect_interrupted (c : cfg) : bool :=
+  match c_script c with
+  | (_, Interrupted) :: _ => true
+  | (_, Fail e) :: _ => e =? EINTR
+  | _ => false
+  end.
+
+Lemma old_run_connect_eintr_stuck : forall c, 1 <= c_limit c -> connect_interrupted c = true ->
+  fst (old_run_connect (c_limit c) (c_script c) (init_st c)) = OStuck.
 Proof.
-  intros c LIM NE. unfold run_connect, enter.
+  intros c LIM NE. unfold old_run_connect, run_connect_gen, enter.
   assert (L0 : (0 <? c_limit c) = true) by lia. rewrite L0.
-  destruct (c_script c) as [|[dt rsp] t]; [discriminate|]. cbn [firstn forallb] in NE. rewrite andb_true_r in NE.
-  unfold no_eintr in NE. cbn [snd] in NE.
+  unfold connect_interrupted in NE.
+  destruct (c_script c) as [|[dt rsp] t]; [discriminate|].
   destruct rsp; try discriminate.
   - reflexivity.
-  - assert (e = EINTR) by (destruct (e =? EINTR) eqn:E; [lia | discriminate]). subst e. reflexivity.
+  - assert (e = EINTR) by lia. subst e. reflexivity.
+Qed.
+
+(** the same inputs now wait once for writability and return what getpeername/SO_ERROR say *)
+Lemma run_connect_eintr_waits : forall c, 1 <= c_limit c -> connect_interrupted c = true ->
+  exists r s, run_connect (c_limit c) (c_script c) (init_st c) = (ORet r, s) /\ List.length (s_waits s) = 1%nat.
+Proof.
+  intros c LIM NE. unfold run_connect, run_connect_gen, enter.
+  assert (L0 : (0 <? c_limit c) = true) by lia. rewrite L0.
+  unfold connect_interrupted in NE.
+  destruct (c_script c) as [|[dt rsp] t]; [discriminate|].
+  assert (FE : fail_errno (snd (dt, rsp)) = Some EINTR).
+  { destruct rsp; try discriminate; cbn; [reflexivity | f_equal; lia]. }
+  rewrite (kcall_fail _ _ _ _ _ _ FE). change (-1 =? 0) with false. cbv beta iota. cbn [s_errno].
+  change (in_progress_gen true EINTR) with true. cbv iota.
+  unfold do_wait. cbn [s_wfail s_clock s_errno s_nb s_reqs s_moved s_waits].
+  match goal with |- context [match ?w with [] => _ | _ :: _ => _ end] => destruct w as [|b w'] end;
+    [|destruct b]; cbn [negb];
+    repeat match goal with |- context [if ?b then _ else _] => destruct b end;
+    eexists; eexists; (split; [reflexivity|]);
+    cbn [restore set_errno set_nb s_waits]; rewrite app_length; unfold init_st; reflexivity.
 Qed.
